@@ -40,6 +40,9 @@ class TaskCode(object):
         self.stmts = None
         self.shared_idx = None
 
+    def __repr__(self):
+        return "TaskCode(%d)" % self.tid
+
 
 class Prog(object):
     """Compiled program."""
@@ -151,6 +154,9 @@ class Prog(object):
             self.features.add("dd")
             self.kinds.update(("a", "b"))
             return ("dd", lid, lf[1], lf[2], lf[3])
+        if op == "dbi":
+            self.features.add("dbi")
+            return ("dbi", lid, lf[1])
         raise ValueError(lf)
 
 
@@ -369,6 +375,9 @@ class R1(object):
         if op == "dd":
             self.unsupported = "dd"
             return ("v", ("dd?",), 0)
+        if op == "dbi":
+            self.unsupported = "dbi"
+            return ("v", ("dbi", lf[1]), self.now + 1)
         raise ValueError(op)
 
     def struct(self, tc, s, made, leaves):
